@@ -39,12 +39,13 @@ def gen_case(rng, i):
                 v = [logu(1e-3, 1e3) for _ in range(n)]
             hist.append([w, v])
     case["hist"] = hist
+    case["how"] = {str(k + 1): rng.choice([0, 0, 1, 2]) for k in range(len(hist))}
     return case
 
 
 def stages_of(case):
     """the configurations the object goes through: initial, then after each assignment"""
-    cur = {k: v for k, v in case.items() if k != "hist"}
+    cur = {k: v for k, v in case.items() if k not in ("hist", "how")}
     out = [dict(cur)]
     for w, v in case.get("hist", []):
         cur = dict(cur)
@@ -92,7 +93,16 @@ def run_impl(case):
     for w, v in case.get("hist", []):
         par = dic[ids[w]]
         new = torch.tensor([[x] for x in v] if B is not None else [v[0]], dtype=par.tensor.dtype)
-        par.tensor = new
+        how = case.get("how", {}).get(str(len(out)), 0)
+        if how == 1 and new.shape == par.tensor.shape:
+            held = par.tensor            # edit in place, assign the same object back (as MCMC operators do)
+            held.copy_(new)
+            par.tensor = held
+        elif how == 2 and new.shape == par.tensor.shape:
+            par.tensor.copy_(new)        # in-place change followed by the notification
+            par.fire_parameter_changed()
+        else:
+            par.tensor = new
         out.append((rows(m.rates()), rows(m.probabilities())))
     return out
 
